@@ -46,3 +46,25 @@ Fixpoint count_occ_z (l : list Z) (z : Z) : nat :=
   match l with [] => O | a :: r => ((if Z.eqb a z then 1 else 0) + count_occ_z r z)%nat end.
 Definition is_perm_z (a b : list Z) : bool :=
   Nat.eqb (List.length a) (List.length b) && forallb (fun z => Nat.eqb (count_occ_z a z) (count_occ_z b z)) a.
+
+(* ---- sorting one REPRESENTATIVE per group (printSource: one node per function name, one node per
+   source file, taken in map order).  The order of the groups may depend only on the groups:
+   whatever member stands for a group, the sequence of group keys after sorting is the same. *)
+Definition group_order_independent {A} (g : A -> val) (lt : A -> A -> bool) :=
+  forall l1 l2 : list A, NoDup (map g l1) -> Permutation (map g l1) (map g l2) ->
+    sorted_by lt l1 -> sorted_by lt l2 -> map g l1 = map g l2.
+
+(* decidable obligation on a generated site (file, function, slice, node order, how the slice was
+   filled -- see harness cmpscan): a slice of representatives chosen by key K must be sorted by a
+   comparator whose FIRST step guards and decides on K *)
+Definition first_key (c : chain) : option string :=
+  match c with s :: _ => if step_ok s then Some (guard s) else None | [] => None end.
+Definition rep_sort_ok (chain_named : string -> chain) (s : string * string * string * string * string) : bool :=
+  let '(_, _, _, order, kind) := s in
+  if String.eqb kind "all" || String.eqb kind "given" then true
+  else if has_prefix "rep:" kind then
+    match first_key (chain_named order) with
+    | Some k => String.eqb k (drop 4 kind)
+    | None => false
+    end
+  else false.
